@@ -12,7 +12,7 @@ import (
 func init() {
 	register(&Prop{
 		ID:             "C26",
-		Pkgs:           []string{"service/txresult", "service", "common", "common/lzw"},
+		Pkgs:           []string{"service/txresult", "service", "common", "common/lzw", "block", "icon/blockv1", "server"},
 		Run:            runC26,
 		MinObligations: 30,
 		Technique:      "static analysis: loop no-bypass (every non-null indexed value and the address reach the bloom; every receipt reaches the block bloom), effect direction of merge (OR into the receiver), exit-guard classification of the subset test (false only behind a witness bit), table agreement of item framing and of the compress/decompress pair incl. LZW writer/reader state machines",
@@ -465,6 +465,91 @@ func runC26(c *Ctx) {
 		c.check(ok, "C26.compress-pair", "stored form read back with SetBytes", fn.Pos(), "SetBytes(bs)", "RLPDecodeSelf differs")
 	}
 	runLZW(c, "C26.lzw-agreement")
+	runC26Consumers(c)
+}
+
+// runC26Consumers: the places outside logsbloom.go that must agree with it —
+// block headers carry the compressed form (written with CompressedBytes, read
+// with NewLogsBloomFromCompressed, never the raw constructor); the fixed-width
+// text form is the big-endian magnitude right-aligned; and the query bloom
+// of an event filter places the signature at position 0 and indexed
+// argument i at position i+1, the positions AddLog uses for log[0] and
+// log[i+1].
+func runC26Consumers(c *Ctx) {
+	nRead, nWrite := 0, 0
+	for _, pkg := range []string{"block", "icon/blockv1"} {
+		for _, f := range c.pkgFuncs(pkg) {
+			for _, cs := range c.calls(f, byCallee("service/txresult.NewLogsBloom", "service/txresult.NewLogsBloomFromCompressed")) {
+				_, a := callArgs(cs.Common())
+				ld, ok := a[0].(*ssa.UnOp)
+				if !ok {
+					continue
+				}
+				fa, ok := ld.X.(*ssa.FieldAddr)
+				if !ok || !strings.HasPrefix(fieldName(fa.X.Type(), fa.Field), "LogsBloom") {
+					continue
+				}
+				nRead++
+				c.check(strings.HasSuffix(calleeName(cs.Common()), "FromCompressed"), "C26.header-compressed", fnName(f)+" reads the header's bloom field as the compressed form", cs.Pos(), "NewLogsBloomFromCompressed(header."+fieldName(fa.X.Type(), fa.Field)+")", "the compressed header field is handed to the raw constructor: a block re-loaded from the database carries a bloom whose bits are the LZW bytes, and Contain misses its events")
+			}
+			for _, st := range fieldStoresAny([]*ssa.Function{f}, "V2HeaderFormat") {
+				if fieldName(st.Addr.X.Type(), st.Addr.Field) != "LogsBloom" {
+					continue
+				}
+				nWrite++
+				c.check(strings.HasSuffix(render(st.Store.Val), ".CompressedBytes()"), "C26.header-compressed", fnName(f)+" writes the header's bloom field in the compressed form", st.Store.Pos(), render(st.Store.Val), "header bloom field = "+render(st.Store.Val))
+			}
+		}
+	}
+	if nRead < 4 || nWrite < 1 {
+		c.undecided("C26.header-compressed", "header bloom field uses", token.NoPos, fmt.Sprintf("expected ≥4 readers and ≥1 writer, found %d/%d", nRead, nWrite))
+	}
+	if f := c.mustFn("service/txresult", "LogsBloom", "LogBytes"); f != nil {
+		okA := false
+		for _, cs := range c.calls(f, byCallee("builtin:copy")) {
+			_, a := callArgs(cs.Common())
+			sl, ok := a[0].(*ssa.Slice)
+			if !ok || sl.Low == nil || sl.High != nil {
+				continue
+			}
+			l := linOf(sl.Low)
+			width, _ := c.constVal("service/txresult", "LogsBloomBytes")
+			okA = l.K == width && len(l.T) == 1 && l.T["len("+render(a[1])+")"] == -1
+		}
+		c.check(okA, "C26.text-form", "LogBytes right-aligns the magnitude in the fixed-width buffer", f.Pos(), "copy(bs[width-len(m):], m)", "the big-endian magnitude is not right-aligned: every bloom whose top byte is zero is printed shifted, and clients testing bits in the text form miss events")
+	}
+	if f := c.mustFn("server", "EventFilter", "Compile"); f != nil {
+		n := 0
+		for _, cs := range c.calls(f, byCallee("LogsBloom).AddIndexedOfLog")) {
+			_, a := callArgs(cs.Common())
+			n++
+			if k, ok := constInt(a[0]); ok {
+				c.check(k == 0 && strings.HasSuffix(render(a[1]), ".Signature"), "C26.query-positions", "filter: the signature is queried at position 0", cs.Pos(), render(a[1]), fmt.Sprintf("position %d carries %s", k, render(a[1])))
+				continue
+			}
+			// position = i+1 where i indexes f.Indexed, and the value is the one kept for indexed[i]
+			okP := false
+			if bo, ok := a[0].(*ssa.BinOp); ok && bo.Op == token.ADD {
+				if k, ok := constInt(bo.Y); ok && k == 1 {
+					for _, b := range f.Blocks {
+						for _, in := range b.Instrs {
+							st, ok := in.(*ssa.Store)
+							if !ok || st.Val != a[1] {
+								continue
+							}
+							if ia, ok := st.Addr.(*ssa.IndexAddr); ok && strings.HasSuffix(render(ia.X), ".indexedBSs") && ia.Index == bo.X {
+								okP = true
+							}
+						}
+					}
+				}
+			}
+			c.check(okP, "C26.query-positions", "filter: indexed argument i is queried at position i+1", cs.Pos(), "AddIndexedOfLog(i+1, indexedBSs[i])", "the query bloom places the argument at position "+render(a[0])+": it asks for a bit no receipt sets for that argument, so matching events are skipped")
+		}
+		if n != 2 {
+			c.undecided("C26.query-positions", "EventFilter.Compile", f.Pos(), fmt.Sprintf("expected 2 AddIndexedOfLog calls, found %d", n))
+		}
+	}
 }
 
 // loadOfField: for &x.f returns x (to follow where the struct came from).
